@@ -375,6 +375,83 @@ def eval_tree(e, decide, bool_leaves=False):
     return rec(e)
 
 
+_OPT_IDX = {'None': 0, 'Some': 1, 'Ok': 0, 'Err': 1}
+
+
+def concretise(e, decide, depth=12):
+    """Evaluate an origin expression under a valuation: decide(cond, case values) -> chosen case (or None = unknown).
+    Named variables are expanded, decisions are resolved, `discr` / variant-field projections of a now-known
+    Option/Result aggregate are folded.  What cannot be resolved stays as an ite (with evaluated branches)."""
+    from ..expr import VAR_DEFS
+    memo = {}
+
+    def rec(x, d):
+        if not isinstance(x, tuple) or not x:
+            return x
+        k = (x, d)
+        if k in memo:
+            return memo[k]
+        r = rec1(x, d)
+        memo[k] = r
+        return r
+
+    def rec1(x, d):
+        t = x[0]
+        if t == 'var':
+            if x in VAR_DEFS and d > 0:
+                return rec(VAR_DEFS[x], d - 1)
+            return x
+        if t == 'ite':
+            # a condition that is a call is handed to `decide` as written (its subject is not expanded)
+            c = x[1] if (isinstance(x[1], tuple) and x[1] and x[1][0] == 'call') else rec(x[1], d)
+            vals = [v for v, _ in x[2]]
+            ch = None
+            if isinstance(c, tuple) and c and c[0] == 'int':
+                ch = c[1]
+            elif isinstance(c, tuple) and c:
+                neg, y = False, c
+                while isinstance(y, tuple) and y and y[0] == 'un' and y[1] == 'Not':
+                    neg, y = not neg, y[2]
+                if y[0] == 'int' and len(y) > 2 and y[2] == 'bool':
+                    ch = int(bool(y[1]) != neg)
+                else:
+                    ch = decide(y, vals if not neg else [0, 'otherwise'])
+                    if ch is not None and neg:
+                        ch = as_bool(ch == 0, vals)
+            if ch is not None:
+                for v, sub in x[2]:
+                    if v == ch:
+                        return rec(sub, d)
+                for v, sub in x[2]:
+                    if v == 'otherwise':
+                        return rec(sub, d)
+                return ('never',)
+            return ('ite', c, tuple((v, rec(sub, d)) for v, sub in x[2]))
+        if t == 'discr' and len(x) == 2:
+            y = rec(x[1], d)
+            if isinstance(y, tuple) and y and y[0] == 'agg' and y[2] in _OPT_IDX and ('Option' in y[1] or 'Result' in y[1]):
+                return ('int', _OPT_IDX[y[2]], 'isize')
+            return ('discr', y)
+        if t == 'field' and len(x) == 3 and isinstance(x[1], tuple) and x[1] and x[1][0] == 'variant':
+            y = rec(x[1][1], d)
+            if isinstance(y, tuple) and y and y[0] == 'agg' and y[2] == x[1][2]:
+                comp = dict(y[3]).get(x[2])
+                if comp is not None:
+                    return comp
+            return ('field', ('variant', y, x[1][2]), x[2])
+        return tuple(rec(c, d) if isinstance(c, tuple) else c for c in x)
+    return rec(e, depth)
+
+
+def tree_leaves(e):
+    if isinstance(e, tuple) and e and e[0] == 'ite':
+        out = []
+        for _, sub in e[2]:
+            out += tree_leaves(sub)
+        return out
+    return [e]
+
+
 def as_bool(ch, vals):
     """map a python bool onto the case value of a two-way switch"""
     if set(vals) == {0, 'otherwise'}:
